@@ -209,6 +209,40 @@ def malformed_exhaustive(ctx, maxlen):
                        case=lambda: {'kind': 'malformed', 'data': hexb(data), 'cuts': []}, failures=f)
 
 
+def malformed_multiline(ctx):
+    """Multi-line replies whose lines carry equal or different codes, under every single cut, every line-boundary cut and
+    byte-wise delivery (the code check must not depend on where the stream was cut)."""
+    index = 0
+    for nlines in (2, 3):
+        for codes in itertools.product((b'250', b'251', b'550'), repeat=nlines):
+            for eol in (b'\r\n', b'\n'):
+                for last_sep in (b' ', b'-'):
+                    lines = []
+                    for k, c in enumerate(codes):
+                        sep = b'-' if k < nlines - 1 else last_sep
+                        lines.append(c + sep + b'line%d' % k + eol)
+                    data = b''.join(lines) + b'250 next\r\n'
+                    index += 1
+                    if not ctx.mine(index):
+                        continue
+                    f = []
+                    cutsets = [()] + [(c,) for c in range(1, len(data))] + [tuple(range(1, len(data)))]
+                    bounds = []
+                    pos = 0
+                    for l in lines:
+                        pos += len(l)
+                        bounds.append(pos)
+                    cutsets.append(tuple(bounds))
+                    bad_cuts = ()
+                    for cuts in cutsets:
+                        f = judge_malformed(data, cuts)
+                        if f:
+                            bad_cuts = cuts
+                            break
+                    ctx.record((data, 'multiline'), True, labels=['malformed-multiline', classify(data)[0]],
+                               case=lambda: {'kind': 'malformed', 'data': hexb(data), 'cuts': list(bad_cuts)}, failures=f)
+
+
 # -- generators -----------------------------------------------------------------
 
 _codes = st.one_of(st.integers(200, 599).map(str),
@@ -314,6 +348,7 @@ def run_shard(ctx):
         from vf import fuzz
         fuzz.run(ctx, ID, 90, FUZZ_SEEDS)
     malformed_exhaustive(ctx, 7 if ctx.thorough else 6)
+    malformed_multiline(ctx)
     roundtrip_random(ctx, ctx.n(20000, 400000))
     roundtrip_allcuts(ctx, ctx.n(2000, 40000))
     malformed_random(ctx, ctx.n(20000, 400000))
